@@ -24,7 +24,7 @@ HEADER = '''open Xrfmv Xrfmv.KernelOps
 variable {α : Type} [Add α] [Sub α] [Mul α] [Div α] [Neg α] [OfNat α 0] [OfNat α 1] [OfNat α 2] [BEq α] [HasRpow α]'''
 
 ATTRS = {'self.bandwidth': 'P.bandwidth', 'self.exponent': 'P.exponent', 'self.p': 'P.p',
-         'self.const_mix': 'P.constMix', 'self.power': 'P.power'}
+         'self.const_mix': 'P.constMix', 'self.power': 'P.power', 'self.eps': 'P.eps', 'self.base_bandwidth': 'P.baseBandwidth'}
 
 TX = 'self._transform_m(x, mat)'
 TZ = 'self._transform_m(z, mat)'
